@@ -6,6 +6,10 @@ import refcodec
 import rsakeys
 from lib import hx
 
+EXTRA_PROPS = ['C18Keys', 'C18KeysLive']
+
+EXTRACT = ['gen.c18keys']
+
 RULE = ("random 16-byte secrets; plaintext/ciphertext streams up to 4 KiB (quick: 1.5 KiB) per "
         "direction; random partitions into send/recv/read calls incl. empty and 1-byte chunks, random "
         "interleaving of directions; RSA: tokens of every length 1..64 under 1024- and 2048-bit keys; "
